@@ -54,3 +54,20 @@ Proof.
   exists s0, tr. split; [exact H1|].
   apply internal_list_dec_bl in H2; [exact H2 | exact internal_label_dec_bl].
 Qed.
+
+(* existence of a reachable state with a given property (non-vacuity examples) *)
+Definition reaches (d : sysdef) (P : state -> bool) : Prop := exists st, sreach d st /\ P st = true.
+
+Definition found_some (d : sysdef) (P : state -> bool) : bool :=
+  match sfind d (fun s => negb (P s)) with
+  | Some (s0, tr) => srefutes d (fun s => negb (P s)) s0 tr
+  | None => false
+  end.
+
+Lemma found_reaches : forall d P, found_some d P = true -> reaches d P.
+Proof.
+  unfold found_some, reaches; intros d P H.
+  destruct (sfind d (fun s => negb (P s))) as [[s0 tr]|]; [|discriminate].
+  apply srefutes_sound in H. destruct H as (st & Hr & Hp).
+  exists st. split; [exact Hr | apply negb_false_iff; exact Hp].
+Qed.
